@@ -50,6 +50,19 @@ func TestVerifDriver(t *testing.T) {
 	vMain(vRun, func(do func(string, M)) {
 		rng := vRand(148)
 		n := vEnvInt("VERIF_N", 400)
+		for _, l := range []int{2047, 2048, 2049, 2048 + 1 + rng.Intn(2000)} { // long inputs
+			b := make([]byte, l)
+			rng.Read(b)
+			do("b1t8.Encode", M{"bytes": vInts(b)})
+		}
+		for g := 0; g < 12; g++ { // the first invalid trit in each of the first 12 groups of a longer input
+			b := make([]byte, 16)
+			rng.Read(b)
+			tr := make(trinary.Trits, EncodedLen(len(b)))
+			Encode(tr, b)
+			tr[8*g+rng.Intn(8)] = -1
+			do("b1t8.Decode", M{"trits": vInts8(tr)})
+		}
 		for k := 0; k < n; k++ {
 			l := k % 41
 			b := make([]byte, l)
